@@ -3,6 +3,9 @@ import LicenseExpr.Props.C09
 #print axioms LE.C09_order
 #print axioms LE.C09_alternatives
 #print axioms LE.C09_truth
+#print axioms LE.C09_idem_ref
+#print axioms LE.C09_idem
+#print axioms LE.C09_faithful_preserved
 #print axioms LE.C09_combine_sole
 #print axioms LE.C09_combine_keep_all
 #print axioms LE.C09_combine_unique
